@@ -875,6 +875,9 @@ func valueText(v ssa.Value) string {
 		if callee := x.Call.StaticCallee(); callee != nil && callee.Signature.Recv() != nil && len(x.Call.Args) == 1 {
 			return valueText(x.Call.Args[0]) + "." + callee.Name() + "()"
 		}
+		if b, ok := x.Call.Value.(*ssa.Builtin); ok && b.Name() == "len" && len(x.Call.Args) == 1 {
+			return "len(" + valueText(x.Call.Args[0]) + ")"
+		}
 	case *ssa.MakeInterface:
 		return valueText(x.X)
 	case *ssa.UnOp:
